@@ -25,6 +25,11 @@ type XAR struct {
 	heap io.ReaderAt
 }
 
+// is [offset, offset+length) inside a heap of the given size?
+func heapRangeOK(offset, length, heapSize int64) bool {
+	return offset >= 0 && length >= 0 && offset <= heapSize && length <= heapSize-offset
+}
+
 func Open(r io.ReaderAt, size int64) (*XAR, error) {
 	hdr, hashType, err := parseHeader(io.NewSectionReader(r, 0, 28))
 	if err != nil {
@@ -53,6 +58,9 @@ func Open(r io.ReaderAt, size int64) (*XAR, error) {
 		heap:     io.NewSectionReader(r, base, 1<<62),
 	}
 	if toc.Signature != nil {
+		if !heapRangeOK(toc.Signature.Offset, toc.Signature.Size, size-base) {
+			return nil, errors.New("reading signature: signature is outside the file")
+		}
 		s.ClassicSignature = make([]byte, toc.Signature.Size)
 		if _, err := r.ReadAt(s.ClassicSignature, base+toc.Signature.Offset); err != nil {
 			return nil, fmt.Errorf("reading signature: %w", err)
@@ -63,6 +71,9 @@ func Open(r io.ReaderAt, size int64) (*XAR, error) {
 		}
 	}
 	if toc.XSignature != nil {
+		if !heapRangeOK(toc.XSignature.Offset, toc.XSignature.Size, size-base) {
+			return nil, errors.New("reading CMS signature: signature is outside the file")
+		}
 		s.CMSSignature = make([]byte, toc.XSignature.Size)
 		if _, err := r.ReadAt(s.CMSSignature, base+toc.XSignature.Offset); err != nil {
 			return nil, fmt.Errorf("reading CMS signature: %w", err)
